@@ -1,11 +1,12 @@
 (* Proofs/C06_PathMore.v - the path editors on the two remaining authority-less layouts:
    (1) Url::set_path on an opaque-path URL, (2) set_path / path_segments_mut on a URL that carries the
    "/." marker.  In both the result is the record with_path builds; it satisfies the invariant exactly
-   when the stored layout still matches the new text: no leading "//" without marker (F-C02-8, which an
-   opaque path reaches through a TAB / LF / CR in front of the argument), a leading "//" with marker
-   (F-C03-5). *)
+   when the stored layout still matches the new text: no leading "//" without marker (F-C02-8), a
+   leading "//" with marker (F-C03-5).  On an opaque path the new text never starts with '/': since the
+   repair of F-C06-6 (0cfc9d8) set_path tests for the leading '/' on the TAB / LF / CR-free input. *)
 From RU Require Import Base.Prelude Base.Utf8 Base.Utf8Facts Model.AsciiSet Gen.Tables Model.PercentEncoding
   Model.HostT Model.UrlRecord Model.Parser Model.Setters Model.WF
+  Proofs.C14_Set Proofs.C14_Enc Proofs.C14_Views
   Proofs.ListN Proofs.C03_WF Proofs.C05_Enc Proofs.C06_List Proofs.C06_WFI Proofs.C06_Tail Proofs.C06_Steps Proofs.C06_FragQuery
   Proofs.C06_Suffix Proofs.C06_Front Proofs.C06_Port Proofs.C06_HostNone Proofs.C06_PathParser Proofs.C06_Path
   Proofs.C06_Segments Proofs.C06_PathNoAuth.
@@ -339,33 +340,56 @@ Proof.
   - unfold is_hexu, is_digit in Hx. unfold no_qh. lia.
 Qed.
 
-(* what the opaque-path state writes in the setter context: nothing stops it, and a text without
-   '?' / '#' gives an output without them *)
-Lemma cbb_setter_out p : forall s, exists A, fst (parse_cannot_be_a_base_path CSetter s p) = s ++ A
-  /\ (forallb no_qh p = true -> forallb no_qh A = true).
+(* the first byte of the encoding of one scalar value other than '/' is not '/' *)
+Lemma enc_head_not47 S c : is_usv c -> c <> 47 ->
+  exists x t, pe_display S (utf8_encode [c]) = x :: t /\ x <> 47.
 Proof.
-  induction p as [|c r IH]; intros s; cbn [parse_cannot_be_a_base_path].
-  - exists []. split; [symmetry; apply app_nil_r | reflexivity].
-  - destruct (is_tnl c).
-    + destruct (IH s) as (A & E & HA). exists A. split; [exact E|]. cbn [forallb]. intros H.
-      apply andb_true_iff in H. apply HA, H.
-    + cbn [ctx_eqb]. rewrite andb_false_r. unfold push_encoded.
-      destruct (IH (s ++ pe_display T_CONTROLS (utf8_encode [c]))) as (A & E & HA).
-      exists (pe_display T_CONTROLS (utf8_encode [c]) ++ A). split; [rewrite E; symmetry; apply app_assoc|].
-      cbn [forallb]. intros H. apply andb_true_iff in H. destruct H as [H1 H2].
-      apply forallb_app_iff. split; [|apply HA; exact H2].
-      apply pe_display_no_qh. unfold utf8_encode. cbn [flat_map]. rewrite app_nil_r. apply no_qh_utf8_1. exact H1.
+  intros Hu Hc. rewrite pe_display_is_encode by (apply utf8_encode_bytes; constructor; [exact Hu | constructor]).
+  unfold utf8_encode. cbn [flat_map]. rewrite app_nil_r.
+  assert (exists b bs, utf8_encode1 c = b :: bs /\ b <> 47) as (b & bs & E & Hb).
+  { unfold utf8_encode1. destruct (c <? 128) eqn:E1; [exists c, []; split; [reflexivity | exact Hc]|].
+    destruct (c <? 2048); [|destruct (c <? 65536)]; eexists; eexists; (split; [reflexivity|]); lia. }
+  rewrite E, encode_cons. unfold enc1. destruct (should_encode S b).
+  - unfold enc_byte_spec. cbn [app]. eexists. eexists. split; [reflexivity | lia].
+  - cbn [app]. eexists. eexists. split; [reflexivity | exact Hb].
 Qed.
 
-Lemma match47' {A} (c : N) (a b : A) : (match c with 47 => a | _ => b end) = if c =? 47 then a else b.
-Proof. destruct (c =? 47) eqn:E; [apply N.eqb_eq in E; subst; reflexivity|].
-  destruct c as [|q]; [reflexivity|]. do 6 (destruct q as [q|q|]; try reflexivity). discriminate. Qed.
+Lemma split47_tnl c r : is_tnl c = true -> inp_split_prefix_char 47 (c :: r) = inp_split_prefix_char 47 r.
+Proof. intros H. unfold inp_split_prefix_char, inp_next. cbn [drop_while]. rewrite H. reflexivity. Qed.
 
-Lemma set_path_opaque_eval dbg u p u' : wf_b u = true -> is_opaque_b u = true ->
-  forallb no_qh p = true -> set_path dbg u p = Some u' ->
-  exists P, u' = with_path u P /\ forallb no_qh P = true.
+Lemma split47_cons c r : is_tnl c = false -> inp_split_prefix_char 47 (c :: r) = if c =? 47 then Some r else None.
+Proof. intros H. unfold inp_split_prefix_char, inp_next. cbn [drop_while]. rewrite H. reflexivity. Qed.
+
+(* what the opaque-path state writes in the setter context: nothing stops it, a text without
+   '?' / '#' gives an output without them, and a text whose first character (TAB / LF / CR apart) is not
+   '/' gives an output that does not start with '/' *)
+Lemma cbb_setter_out p : forall s, exists A, fst (parse_cannot_be_a_base_path CSetter s p) = s ++ A
+  /\ (forallb no_qh p = true -> forallb no_qh A = true)
+  /\ (usv_list p -> inp_split_prefix_char 47 p = None -> forall t, A = 47 :: t -> False).
 Proof.
-  intros W Hop Hp H. unfold is_opaque_b in Hop. apply negb_true_iff in Hop.
+  induction p as [|c r IH]; intros s; cbn [parse_cannot_be_a_base_path].
+  - exists []. split; [symmetry; apply app_nil_r|]. split; [reflexivity | intros _ _ t; discriminate].
+  - destruct (is_tnl c) eqn:Et.
+    + destruct (IH s) as (A & E & HA & HB). exists A. split; [exact E|]. split.
+      * cbn [forallb]. intros H. apply andb_true_iff in H. apply HA, H.
+      * intros Hu Hn. rewrite (split47_tnl c r Et) in Hn. apply HB; [inversion Hu; assumption | exact Hn].
+    + cbn [ctx_eqb]. rewrite andb_false_r. unfold push_encoded.
+      destruct (IH (s ++ pe_display T_CONTROLS (utf8_encode [c]))) as (A & E & HA & _).
+      exists (pe_display T_CONTROLS (utf8_encode [c]) ++ A). split; [rewrite E; symmetry; apply app_assoc|]. split.
+      * cbn [forallb]. intros H. apply andb_true_iff in H. destruct H as [H1 H2].
+        apply forallb_app_iff. split; [|apply HA; exact H2].
+        apply pe_display_no_qh. unfold utf8_encode. cbn [flat_map]. rewrite app_nil_r. apply no_qh_utf8_1. exact H1.
+      * intros Hu Hn t Ht. rewrite (split47_cons c r Et) in Hn.
+        destruct (c =? 47) eqn:E47; [discriminate|]. apply N.eqb_neq in E47.
+        destruct (enc_head_not47 T_CONTROLS c (Forall_inv Hu) E47) as (x & t0 & Ex & Hx).
+        rewrite Ex in Ht. cbn [app] in Ht. inversion Ht. congruence.
+Qed.
+
+Lemma set_path_opaque_eval dbg u p u' : wf_b u = true -> is_opaque_b u = true -> usv_list p ->
+  forallb no_qh p = true -> set_path dbg u p = Some u' ->
+  exists P, u' = with_path u P /\ forallb no_qh P = true /\ (forall t, P = 47 :: t -> False).
+Proof.
+  intros W Hop Hu Hp H. unfold is_opaque_b in Hop. apply negb_true_iff in Hop.
   destruct (opaque_path_start u W Hop) as [Ha Eps].
   unfold set_path in H. rewrite (take_after_path_eval u W) in H. cbn [bindo] in H.
   destruct (wf_ps_le_path_end u W) as [B5 B6]. destruct (wf_scheme_facts u W) as (Hse & Hc & Hlt).
@@ -389,17 +413,23 @@ Proof.
   rewrite nfirstn_nfirstn in H by lia.
   set (s0 := nfirstn ps (ser u)) in *.
   assert (nlen s0 = ps) as Ls0 by (apply nlen_nfirstn; lia).
+  unfold input_new_no_trim in H.
   (* the text written *)
-  assert (exists P, (let '(s, p') := match p with 47 :: r => (s0 ++ [37; 50; 70], r) | _ => (s0, p) end in
+  assert (exists P, (let '(s, p') := match inp_split_prefix_char 47 p with
+                                     | Some r => (s0 ++ [37; 50; 70], r) | None => (s0, p) end in
                      Some (fst (parse_cannot_be_a_base_path CSetter s p'))) = Some (s0 ++ P)
-                    /\ forallb no_qh P = true) as (P & EP & HP).
-  { destruct p as [|c r].
-    - destruct (cbb_setter_out [] s0) as (A & E & HA). exists A. rewrite E. split; [reflexivity | apply HA; reflexivity].
-    - rewrite match47'. destruct (c =? 47) eqn:E47.
-      + cbn [forallb] in Hp. apply andb_true_iff in Hp. destruct Hp as [_ Hr].
-        destruct (cbb_setter_out r (s0 ++ [37; 50; 70])) as (A & E & HA). exists ([37; 50; 70] ++ A).
-        rewrite E, <- app_assoc. split; [reflexivity|]. apply forallb_app_iff. split; [reflexivity | apply HA; exact Hr].
-      + destruct (cbb_setter_out (c :: r) s0) as (A & E & HA). exists A. rewrite E. split; [reflexivity | apply HA; exact Hp]. }
+                    /\ forallb no_qh P = true /\ (forall t, P = 47 :: t -> False)) as (P & EP & HP & HH).
+  { destruct (inp_split_prefix_char 47 p) as [r|] eqn:E47.
+    - assert (forallb no_qh r = true) as Hr.
+      { clear - Hp E47. induction p as [|c p' IH]; [discriminate|]. cbn [forallb] in Hp. apply andb_true_iff in Hp.
+        destruct Hp as [_ Hp]. destruct (is_tnl c) eqn:Et.
+        - rewrite (split47_tnl c p' Et) in E47. exact (IH Hp E47).
+        - rewrite (split47_cons c p' Et) in E47. destruct (c =? 47); inversion E47; subst. exact Hp. }
+      destruct (cbb_setter_out r (s0 ++ [37; 50; 70])) as (A & E & HA & _). exists ([37; 50; 70] ++ A).
+      rewrite E, <- app_assoc. split; [reflexivity|]. split; [|intros t Ht; discriminate].
+      apply forallb_app_iff. split; [reflexivity | apply HA; exact Hr].
+    - destruct (cbb_setter_out p s0) as (A & E & HA & HB). exists A. rewrite E.
+      split; [reflexivity|]. split; [apply HA; exact Hp | exact (HB Hu E47)]. }
   rewrite EP in H. cbn [bindo] in H.
   unfold restore_after_path in H. cbn [ser set_ser query_start fragment_start] in H. rewrite Lpe in H.
   assert (match query_start u with Some i => pe <= i | None => True end) as Gq.
@@ -408,33 +438,48 @@ Proof.
   { pose proof (qf_qf (wf_qf_facts u W)) as Q3. unfold pe, path_end.
     destruct (query_start u), (fragment_start u); try exact I; lia. }
   rewrite !adjust_opt_ok in H by assumption. cbn [bindo] in H.
-  exists P. split; [|exact HP].
+  exists P. split; [|split; [exact HP | exact HH]].
   inversion H. unfold with_path. fold pe ps. rewrite nlen_app, Ls0. rewrite <- app_assoc. reflexivity.
 Qed.
 
-(* Url::set_path on an opaque path, for an argument without '?' and '#' (those are F-C02-3): the frame
-   holds exactly when the result does not start with "//" - which an argument such as TAB "//x" produces,
-   because only a '/' in the very first position is escaped while TAB / LF / CR are dropped later *)
-Theorem set_path_opaque_ok dbg u p u' : wf_b u = true -> is_opaque_b u = true ->
+(* Url::set_path on an opaque path, for an argument (a &str) without '?' and '#' (those are F-C02-3):
+   invariant, frame, the path stays opaque.  (Before the repair of F-C06-6 an argument such as TAB "//x"
+   produced a result starting with "//".) *)
+Theorem set_path_opaque_ok dbg u p u' : wf_b u = true -> is_opaque_b u = true -> usv_list p ->
   forallb no_qh p = true -> set_path dbg u p = Some u' ->
-  (path_starts_with_2slash u' = false ->
-     wf_b u' = true /\ host_text_ok u' /\ same_front dbg u u' /\ query dbg u' = query dbg u
-     /\ fragment dbg u' = fragment dbg u /\ exists P, path u' = Some P /\ forallb no_qh P = true)
-  /\ (path_starts_with_2slash u' = true -> wf_b u' = false).
+  wf_b u' = true /\ host_text_ok u' /\ same_front dbg u u' /\ query dbg u' = query dbg u
+  /\ fragment dbg u' = fragment dbg u /\ is_opaque_b u' = true
+  /\ exists P, path u' = Some P /\ forallb no_qh P = true.
 Proof.
-  intros W Hop Hp H. destruct (set_path_opaque_eval dbg u p u' W Hop Hp H) as (P & -> & HP).
-  unfold is_opaque_b in Hop. apply negb_true_iff in Hop. destruct (opaque_path_start u W Hop) as [Ha Eps].
-  destruct (plain_result dbg u P W Ha Eps HP) as [R1 R2]. split; [|exact R2].
-  intros Hss. destruct (R1 Hss) as (A & B & C & D & E & F). splits; try assumption. exists P. split; assumption.
+  intros W Hop Hu Hp H. destruct (set_path_opaque_eval dbg u p u' W Hop Hu Hp H) as (P & -> & HP & HH).
+  pose proof Hop as Hop2. unfold is_opaque_b in Hop2. apply negb_true_iff in Hop2.
+  destruct (opaque_path_start u W Hop2) as [Ha Eps].
+  destruct (plain_result dbg u P W Ha Eps HP) as [R1 _].
+  assert (path_starts_with_2slash (with_path u P) = false) as Hss.
+  { rewrite (wg_2slash u P W Ha). destruct P as [|c r0]; [reflexivity|].
+    unfold s_ss. cbn [starts_with]. destruct (47 =? c) eqn:E; [|reflexivity]. apply N.eqb_eq in E. subst c.
+    destruct (HH _ eq_refl). }
+  destruct (R1 Hss) as (A & B & C & D & E & F). splits; try assumption; [|exists P; split; assumption].
+  unfold is_opaque_b. apply negb_true_iff. change (scheme_end (with_path u P)) with (scheme_end u).
+  rewrite <- Eps. unfold byte_eqb. rewrite <- (N.add_0_r (path_start u)).
+  rewrite <- nnth_nskipn, (wg_skip_ps u P W Ha).
+  destruct P as [|c r0].
+  - cbn [app]. rewrite nnth_nskipn, N.add_0_r.
+    destruct (nnth (ser u) (path_end u)) as [x|] eqn:En; [|reflexivity]. apply N.eqb_neq. intros ->.
+    apply (wg_after_not_slash u [] W Ha). rewrite nlen_nil, N.add_0_r.
+    rewrite <- (N.add_0_r (path_start u)), <- nnth_nskipn, (wg_skip_ps u [] W Ha). cbn [app].
+    rewrite nnth_nskipn, N.add_0_r. exact En.
+  - cbn. apply N.eqb_neq. intros ->. destruct (HH _ eq_refl).
 Qed.
 
-(* the argument TAB "//x" on "a:b" *)
-Lemma set_path_opaque_tab_refuted :
-  wf_b sp_w2 = true /\ is_opaque_b sp_w2 = true /\ forallb no_qh [9; 47; 47; 120] = true
-  /\ exists u', set_path true sp_w2 [9; 47; 47; 120] = Some u' /\ ser u' = [97; 58; 47; 47; 120] /\ wf_b u' = false.
+(* the former witness of F-C06-6, on the repaired code: TAB "//x" on "a:b" now gives "a:%2F/x" *)
+Lemma set_path_opaque_tab_fixed :
+  wf_b sp_w2 = true /\ is_opaque_b sp_w2 = true
+  /\ exists u', set_path true sp_w2 [9; 47; 47; 120] = Some u' /\ ser u' = [97; 58; 37; 50; 70; 47; 120]
+      /\ wf_b u' = true /\ is_opaque_b u' = true.
 Proof.
-  split; [vm_compute; reflexivity|]. split; [vm_compute; reflexivity|]. split; [vm_compute; reflexivity|].
-  eexists. split; [vm_compute; reflexivity|]. split; vm_compute; reflexivity.
+  split; [vm_compute; reflexivity|]. split; [vm_compute; reflexivity|].
+  eexists. split; [vm_compute; reflexivity|]. repeat split; vm_compute; reflexivity.
 Qed.
 
 (* ---------- (2) the editors on a URL with the "/." marker ---------- *)
